@@ -206,4 +206,10 @@ theorem C19_format_steps_generated (D : Desc) (s : St) (f : Fsm) :
     ((s.cmdOf f).isSome = true → nextFormatVar D s f = Gen.next_format_var_by_fsm D s f) :=
   ⟨printResponseTest_generated D s f, nextFormatVar_generated D s f⟩
 
+/-- one step of the automatic TEST response is the function whose statements are re-recognised in
+`format_test_args` of the source on every run (translator item T17) -/
+theorem C19_format_test_step_generated (D : Desc) (s : St) (f : Fsm) :
+    formatTestArgs D s f = Gen.format_test_args D s f :=
+  formatTestArgs_generated D s f
+
 end Cat
